@@ -406,4 +406,34 @@ Plan generate_exhaust(uint64_t seed) {
     return pl;
 }
 
+Plan generate_rc(uint64_t index) {
+    int byte = (int)(index % 256), cat = (int)((index / 256) % 9), chunk = (int)((index / 2304) % 2);
+    Plan pl; pl.seed = index;
+    Knobs& k = pl.knobs;
+    k.profile = "clean"; k.focus = "C20x:" + std::to_string(cat) + ":" + std::to_string(byte); k.variant = (int)(index % 2);
+    HostCfg h; h.name = "h0"; k.hosts.push_back(h);
+    k.client.brokers = "h0"; k.client.client_id = "rc"; k.client.keep_alive = 0;
+    auto& nk = k.net; nk.lat_max = 1 * MS; nk.short_write_p = 0; nk.seg_split_p = 0; nk.chunk_mode = chunk ? 1 : 0;
+    auto& bk = k.broker; bk.ack_delay_max = 0; bk.ack_zero_p = 1.0; bk.short_form_p = 0.0;
+    k.healed_suffix = 40 * SEC;
+    int id = 1;
+    auto push = [&](Step s) { s.id = id++; pl.steps.push_back(std::move(s)); };
+    auto arm = [&](uint8_t ptype) { Step s; s.kind = SK::FProto; s.a = 1; s.b = ptype; s.c = 0; s.d = (int)bk::PfAct::hostile_reply; s.s2 = std::to_string(1000 + byte); push(s); };
+    // categories: 0 connack 1 puback 2 pubrec 3 pubrel 4 pubcomp 5 suback 6 unsuback 7 auth 8 disconnect
+    switch (cat) {
+    case 0: arm(CONNACK); { Step s; s.kind = SK::Run; push(s); } break;
+    case 1: { Step s; s.kind = SK::Run; push(s); } arm(PUBACK); { Step s; s.kind = SK::Publish; s.a = 1; s.s1 = "t/" + std::to_string(id); s.s2 = std::to_string(id) + ":x"; s.delay = 100 * MS; push(s); } break;
+    case 2: { Step s; s.kind = SK::Run; push(s); } arm(PUBREC); { Step s; s.kind = SK::Publish; s.a = 2; s.s1 = "t/" + std::to_string(id); s.s2 = std::to_string(id) + ":x"; s.delay = 100 * MS; push(s); } break;
+    case 3: { Step s; s.kind = SK::Run; push(s); } { Step s; s.kind = SK::Receive; s.a = 2; s.delay = 100 * MS; push(s); } arm(PUBREL);
+            { Step s; s.kind = SK::BrokerPublish; s.a = 2; s.s1 = "b/" + std::to_string(id); s.s2 = "m" + std::to_string(id) + ":x"; s.delay = 10 * MS; push(s); } break;
+    case 4: { Step s; s.kind = SK::Run; push(s); } arm(PUBCOMP); { Step s; s.kind = SK::Publish; s.a = 2; s.s1 = "t/" + std::to_string(id); s.s2 = std::to_string(id) + ":x"; s.delay = 100 * MS; push(s); } break;
+    case 5: { Step s; s.kind = SK::Run; push(s); } arm(SUBACK); { Step s; s.kind = SK::Subscribe; SubTopic t; t.filter = "f/" + std::to_string(id) + "/0"; t.opts = 1; s.subs.push_back(t); s.delay = 100 * MS; push(s); } break;
+    case 6: { Step s; s.kind = SK::Run; push(s); } arm(UNSUBACK); { Step s; s.kind = SK::Unsubscribe; s.topics.push_back("f/1/0/u" + std::to_string(id)); s.delay = 100 * MS; push(s); } break;
+    case 7: k.client.use_authenticator = true; k.client.auth_method = "m"; bk.auth_rounds = 1; arm(AUTH); { Step s; s.kind = SK::Run; push(s); } break;
+    case 8: { Step s; s.kind = SK::Run; push(s); } { Step s; s.kind = SK::BrokerDisconnect; s.a = byte; s.delay = 200 * MS; push(s); } break;
+    }
+    { Step s; s.kind = SK::Wait; s.delay = 2 * SEC; push(s); }
+    return pl;
+}
+
 } // namespace app
